@@ -127,24 +127,33 @@ where
     hashseam::set_seed(sc.hash_seed);
     let world = World::<F>::new(&sc.prios, sc.shared_container);
     world.seed_edges(&sc.initial);
-    hashseam::set_seed(rng::mix(sc.hash_seed ^ (t as u64 + 1)));
-    let solo = Solo::new();
-    solo.install();
-    let mut obs = Vec::new();
-    for op in &sc.tasks[t] {
-        let o = world.exec(op);
-        let stop = matches!(o, Obs::Abort(_));
-        obs.push(o);
-        if stop {
-            break;
-        }
-    }
-    Solo::uninstall();
-    if let Some(h) = solo.harness_error() {
-        eprintln!("HARNESS-ERROR: {h}");
-        std::process::exit(2);
-    }
-    obs
+    // on a thread of its own, like the task it mirrors: whatever the library keeps per thread
+    // (thread-locals) starts fresh and ends with it
+    std::thread::scope(|s| {
+        let world = &world;
+        s.spawn(move || {
+            hashseam::set_seed(rng::mix(sc.hash_seed ^ (t as u64 + 1)));
+            let solo = Solo::new();
+            solo.install();
+            let mut obs = Vec::new();
+            for op in &sc.tasks[t] {
+                let o = world.exec(op);
+                let stop = matches!(o, Obs::Abort(_));
+                obs.push(o);
+                if stop {
+                    break;
+                }
+            }
+            Solo::uninstall();
+            if let Some(h) = solo.harness_error() {
+                eprintln!("HARNESS-ERROR: {h}");
+                std::process::exit(2);
+            }
+            obs
+        })
+        .join()
+        .expect("run-alone thread")
+    })
 }
 
 fn run_once<F: SyncFlavour>(sc: &ConcSc, sched_rng: Rng, forced: Option<Vec<u32>>, only_inv: bool, stats: &mut Stats) -> RunOut
